@@ -1,6 +1,9 @@
 package interpreter
 
-import "github.com/libsv/go-bt/v2/bscript/interpreter/scriptflag"
+import (
+	"github.com/libsv/go-bt/v2/bscript"
+	"github.com/libsv/go-bt/v2/bscript/interpreter/scriptflag"
+)
 
 // State a snapshot of a threads state during execution.
 type State struct {
@@ -128,6 +131,13 @@ func (t *thread) SetState(state *State) {
 	t.scriptIdx = state.ScriptIdx
 	t.scriptOff = state.OpcodeIdx
 	t.lastCodeSep = state.LastCodeSeparatorIdx
+	// A record cannot tell "no separator yet" from "separator at instruction 0": both read 0.
+	// The first instruction of a script is never inside a conditional, so a separator there
+	// has been executed exactly when the program counter is past it.
+	t.codeSepSeen = t.lastCodeSep > 0
+	if !t.codeSepSeen && t.scriptOff > 0 && t.scriptIdx >= 0 && t.scriptIdx < len(t.scripts) && len(t.scripts[t.scriptIdx]) > 0 {
+		t.codeSepSeen = t.scripts[t.scriptIdx][0].op.val == bscript.OpCODESEPARATOR
+	}
 	t.numOps = state.NumOps
 	t.flags = state.Flags
 	t.afterGenesis = state.Genesis.AfterGenesis
